@@ -380,6 +380,8 @@ class ImplIndex:
         self.repo = repo
         self.cache = {}
         self.files = {}
+        self.trait_args = {}
+        self.self_text = {}
 
     def _lines(self, f):
         if f not in self.files:
@@ -408,6 +410,8 @@ class ImplIndex:
                     if ' for ' in hdr:
                         tr, ty = hdr.split(' for ', 1)
                         r = (_last_seg(tr), _last_seg(ty))
+                        self.trait_args[span] = _norm_arg(tr[tr.index('<') + 1:tr.rindex('>')]) if '<' in tr and '>' in tr else ''
+                        self.self_text[span] = _norm_arg(ty)
                     else:
                         r = (None, _last_seg(hdr))
                 else:
@@ -421,6 +425,14 @@ class ImplIndex:
                     r = (_last_seg(tr), ty)
         self.cache[span] = r
         return r
+
+
+def _norm_arg(t):
+    """normalise a type argument for impl selection: drop lifetimes and paths, keep reference-ness"""
+    t = re.sub(r"'\w+\s*", '', t.strip())
+    t = re.sub(r'&\s*(mut\s+)?', '&', t)
+    ref = '&' if t.startswith('&') else ''
+    return ref + strip_generics(t.lstrip('&')).split('::')[-1].strip()
 
 
 def _strip_impl_generics(hdr):
